@@ -1,19 +1,22 @@
-"""Per-property metadata: used by ./check (extra tiers) and tools/gen_manifest.py."""
+"""Per-property metadata, one JSON file per property under /verif/meta/Cxx.json:
+  {"category": "exploration|fault_enumeration", "text": "...level claimed, own words...",
+   "note": "...trusted base / assumptions...", "technique": "...few words...",
+   "engine": "...", "design_ref": "DESIGN.md#cxx", "extra_tiers": [ ... ]}
+Used by ./check (extra tiers) and tools/gen_manifest.py."""
+import glob, json, os
+_ROOT = os.path.dirname(os.path.abspath(__file__))
 META = {}
-
-def P(pid, category, text, note, technique, engine, design_ref, extra_tiers=()):
-    META[pid] = dict(category=category, text=text, note=note, technique=technique, engine=engine,
-                     design_ref=design_ref, extra_tiers=list(extra_tiers))
-
-P("C32", "exploration",
-  "Every listed operation of NtpTimestamp/NtpDuration and of the PTP Timestamp/Duration is executed on boundary-lattice and random operands in a release-semantics and a debug-semantics build and compared with i128/u128 reference arithmetic; panics are caught per operation. Held on the operands observed (the 8-bit scalar x lattice sub-space is enumerated completely), not proved for all 2^64 values.",
-  "Trusts the reference arithmetic in driver/src/props/c32.rs and the raw-bit accessors exposed by the guarded hook; division by zero is not exercised.",
-  "runtime differential monitor vs i128 reference arithmetic, two build profiles, panic capture", "direct", "DESIGN.md#c32")
+for _f in sorted(glob.glob(os.path.join(_ROOT, "meta", "C*.json"))):
+    _m = json.load(open(_f))
+    _m.setdefault("extra_tiers", [])
+    META[os.path.basename(_f)[:-5]] = _m
 
 # reasons for properties not claimed (overrides the default text)
 NA = {}
+if os.path.exists(os.path.join(_ROOT, "meta", "not_applicable.json")):
+    NA = json.load(open(os.path.join(_ROOT, "meta", "not_applicable.json")))
 
 ENGINES = [
-    {"name": "driver", "path": "/verif/driver", "serves_properties": [], "kind_free_text": "Rust worker binary (two build profiles) linking the real crates with the guarded hooks; per-property monitors in src/props, shared workload engines in src/common"},
-    {"name": "check", "path": "/verif/check", "serves_properties": [], "kind_free_text": "Python orchestrator: rebuilds, shards cases over worker processes, merges event counts, applies known_findings.json, writes evidence"},
+    {"name": "driver", "path": "/verif/driver", "serves_properties": sorted(META), "kind_free_text": "Rust worker binary (two build profiles: release semantics 'ship', debug-assertions+overflow-checks 'strict') linking the real crates with the guarded hooks; per-property monitors in src/props, shared workload engines in src/common"},
+    {"name": "check", "path": "/verif/check", "serves_properties": sorted(META), "kind_free_text": "Python orchestrator: rebuilds from /repo's working tree, shards cases over worker processes, merges event counts, applies known_findings.json, writes evidence"},
 ]
